@@ -594,6 +594,8 @@ def op_modify(s, a):
     ti, what, seed, k = a
     t = any_tensor(s, ti)
     rng = np.random.default_rng(seed)
+    if what in (2, 4) and tensor_has_repeat(t):
+        raise Reject("axis permutation by label is ambiguous for a repeated label")
     touch(s, t)
     if what == 0:
         t.modify(data=rng.normal(size=t.shape))
